@@ -22,7 +22,7 @@
    Executable; no proofs here. *)
 From Coq Require Import ZArith NArith Bool List Arith String.
 Import ListNotations.
-From TP Require Import Base.PyVal Struct.CopyHeap.
+From TP Require Import Base.PyVal Base.PyEq Struct.CopyHeap.
 
 Inductive aval :=
 | AV (c : child)
@@ -263,12 +263,35 @@ Fixpoint nth_kid (kids : list (pystr * child)) (n : nat) : option child :=
   | _ :: t, S n' => nth_kid t n'
   end.
 
-(* super().__getitem__(item) of a list / deque subclass *)
+Fixpoint kid_pairs (kids : list (pystr * child)) : option (list (child * child)) :=
+  match kids with
+  | [] => Some []
+  | (_, k) :: (_, v) :: t => match kid_pairs t with Some r => Some ((k, v) :: r) | None => None end
+  | _ => None
+  end.
+
+(* dict keys: atoms compare by value, objects by identity (user __eq__ / __hash__: not modelled) *)
+Definition key_eqb (a b : child) : bool :=
+  match a, b with
+  | CAtom x, CAtom y => pyval_eqb x y
+  | CRef l, CRef m => Nat.eqb l m
+  | _, _ => false
+  end.
+
+Fixpoint dict_find (ps : list (child * child)) (k : child) : option child :=
+  match ps with [] => None | (k0, v) :: t => if key_eqb k0 k then Some v else dict_find t k end.
+
+(* super().__getitem__(item) of a list / deque / dict subclass *)
 Definition a_super_getitem (s : aval) (item : aval) : M aval :=
   b <~ a_body s ;; k <~ kind_of b ;; kids <~ a_kids b ;;
   match k, item with
   | KWList, ASliceAll => mret (ATmp KList kids)
   | KWDeque, ASliceAll => mraise TypeError                 (* a deque index must be an integer *)
+  | KWDict, AV kc =>
+      match kid_pairs kids with
+      | Some ps => match dict_find ps kc with Some v => mret (AV v) | None => mraise KeyError end
+      | None => mraise Unmodelled
+      end
   | (KWList | KWDeque), AV (CAtom (PNum (NInt z))) =>
       let n := Z.of_nat (List.length kids) in
       let i := if Z.ltb z 0 then Z.add n z else z in
@@ -285,12 +308,6 @@ Definition a_super_iter (s : aval) : M aval :=
   | _ => mraise Unmodelled
   end.
 
-Fixpoint kid_pairs (kids : list (pystr * child)) : option (list (child * child)) :=
-  match kids with
-  | [] => Some []
-  | (_, k) :: (_, v) :: t => match kid_pairs t with Some r => Some ((k, v) :: r) | None => None end
-  | _ => None
-  end.
 
 (* super().items() / super().values() of a dict subclass: the entries as they are (lazily) *)
 Definition a_super_items (s : aval) : M aval :=
